@@ -6,7 +6,7 @@ WT=/tmp/wt_seedtable
 git -C /repo worktree remove --force $WT 2>/dev/null
 git -C /repo worktree add --detach -q $WT HEAD || exit 2
 cd /verif
-for d in seeded/*/; do
+for d in ${SEEDS:-seeded/*/}; do
   n=$(basename $d); p=${n%%-*}
   (cd $WT && git checkout -q -- . && git apply /verif/$d/patch.diff) || { echo "== $n APPLY-FAIL" >> $out; continue; }
   t0=$(date +%s)
